@@ -343,3 +343,24 @@ Definition sys_step (v : variant) (s : sys) (ja : nat * who) : sys :=
   upd (fst ja) (fun cw => (fst cw, step v (fst cw) (snd cw) (snd ja))) s.
 Definition sys_run (v : variant) (cs : list cfg) (sched : list (nat * who)) : sys :=
   fold_left (sys_step v) sched (sys_init cs).
+
+(* ---- a further handshake between the same two peer ids -------------------------------------- *)
+(* A later attempt (a reconnect, a restart of the initiating node with the same key) runs on a
+   new connection with a new handshake stream: everything per attempt starts afresh; what the
+   responder keeps per PEER ID -- the handshakes on record as in progress, the registry entry --
+   and the history counter survive. *)
+Definition next_attempt (w : world) : world :=
+  {| ipc := IWriteReq; rpc := RBegin; i2r := []; r_rd := 0; r2i := []; i_rd := 0;
+     i_closed := false; r_closed := false; inflight := inflight w; registered := registered w;
+     returned := None; wr := []; ga_calls := ga_calls w |}.
+(* The connection of the earlier attempt is closed and the responder's peerRegistry.Disconnected
+   has removed the registry entry it carried (it was the only tracked connection of the peer).
+   Used for the moment BEFORE any stream of the new attempt is looked up; the interleavings in
+   which lookups still see the old entry are not part of this model (see PeerRegistry, C14). *)
+Definition forget_registration (w : world) : world :=
+  {| ipc := ipc w; rpc := rpc w; i2r := i2r w; r_rd := r_rd w; r2i := r2i w; i_rd := i_rd w;
+     i_closed := i_closed w; r_closed := r_closed w; inflight := inflight w;
+     registered := None; returned := returned w; wr := wr w; ga_calls := ga_calls w |}.
+Definition is_done (p : rpc_t) : bool := match p with RDone => true | _ => false end.
+(* the whole handshake, both sides run to their end (whatever the outcome) *)
+Definition sched_handshake : list who := hs_prefix ++ release.
